@@ -208,11 +208,11 @@ func main() {
 		})
 
 		r.Part("E3-whole-frames", func(t *explore.T) {
-			sizes := []int{0, 1, 125, 126, 127, 65535, 65536, 65537}
+			sizes := []int{0, 1, 125, 126, 127, 65535, 65536, 65537, 1 << 20, 1<<20 + 1, 1<<21 + 3}
 			for _, n := range sizes {
 				for _, masked := range []bool{false, true} {
 					for _, chunk := range []int{0, 1, 7} {
-						if chunk == 1 && n > 1000 && !t.Thorough() {
+						if chunk == 1 && (n > 1000 && !t.Thorough() || n > 100000) {
 							continue
 						}
 						n, masked, chunk := n, masked, chunk
@@ -250,6 +250,19 @@ func main() {
 							rest, _ := io.ReadAll(s)
 							if !bytes.Equal(rest, sentinel) {
 								return explore.Failf("ReadFrame-sentinel", "following bytes disturbed")
+							}
+							// a frame is the header followed by exactly Length payload bytes: when fewer
+							// are available ReadFrame must not hand back a frame as if it were whole
+							for _, missing := range []int{1, n / 2, n} {
+								if missing < 1 || missing > n {
+									continue
+								}
+								ts := env.NewSrc(want[:len(want)-missing])
+								ts.Policy = env.FixedChunk(chunk)
+								tf, terr := ws.ReadFrame(ts)
+								if terr == nil {
+									return explore.Failf("ReadFrame-short-payload-no-error", "%d of %d payload bytes missing, err=nil, len(Payload)=%d", missing, n, len(tf.Payload))
+								}
 							}
 							t.Outcome("ok")
 							return nil
